@@ -20,7 +20,10 @@ pub struct Knobs {
     /// percent of runs that configure audio
     pub audio_pct: u64,
     pub meta_pct: u64,
-    pub big_frames: bool,
+    /// share (1/1000) of video frames of 60..70 KiB
+    pub big_frames: u32,
+    /// audio timestamps: percent of runs whose audio clock is skewed / jittered against the nominal frame duration
+    pub audio_jitter_pct: u64,
     /// percent of runs using encode_* convenience calls
     pub enc_api_pct: u64,
     /// percent of runs whose start times are non-zero / differ between tracks
@@ -56,7 +59,8 @@ impl Knobs {
             bframes_pct: 30,
             audio_pct: 60,
             meta_pct: 40,
-            big_frames: false,
+            big_frames: 4,
+            audio_jitter_pct: 35,
             enc_api_pct: 8,
             start_offset_pct: 30,
             adversarial_order_pct: 30,
@@ -200,7 +204,7 @@ pub fn gen_prog_with_cfg(rng: &mut Rng, k: &Knobs, cfg: ProgCfg) -> (ProgCase, G
     } else {
         0.0
     };
-    let big = k.big_frames;
+    let big = if long { 0 } else { k.big_frames };
     let mut stamp = rng.next_u64() | 1;
     let mut next_stamp = || {
         stamp = stamp.wrapping_mul(6364136223846793005).wrapping_add(1442695040888963407);
@@ -302,6 +306,9 @@ pub fn gen_prog_with_cfg(rng: &mut Rng, k: &Knobs, cfg: ProgCfg) -> (ProgCase, G
             n_audio = want;
             let use_enc_a = use_enc || rng.chance(k.enc_api_pct, 200);
             let mut t = first_v + astart_off;
+            // audio clock style: nominal, steady skew (e.g. 20.5 ms for 20 ms packets), random jitter within +-1 ms, irregular
+            let astyle = if rng.chance(k.audio_jitter_pct, 100) { rng.range(1, 3) } else { 0 };
+            let skew = *rng.pick(&[1.025f64, 0.98, 1.0005, 1.04]);
             for i in 0..want {
                 let size = rng.range(1, 400) as usize;
                 let f = frames::build_audio(rng, ac, next_stamp(), size, k.decorate);
@@ -312,7 +319,12 @@ pub fn gen_prog_with_cfg(rng: &mut Rng, k: &Knobs, cfg: ProgCfg) -> (ProgCase, G
                 };
                 events.push(Ev { time: t, op });
                 if !(i > 0 && rng.chance(1, 12)) {
-                    t += frame_dur;
+                    t += match astyle {
+                        1 => frame_dur * skew,
+                        2 => (frame_dur + (rng.below(181) as f64 - 90.0) / 90000.0).max(1.0 / 90000.0),
+                        3 => frame_dur * (*rng.pick(&[0.5f64, 1.0, 1.5, 3.0])),
+                        _ => frame_dur,
+                    };
                 }
             }
         }
@@ -497,11 +509,14 @@ fn invalid_op(rng: &mut Rng, codec: VCodec, acodec: Option<ACodec>, now: f64, fi
         }
         4 => {
             let f = good_v(rng, FrameShape::KeyWithConfig, next_stamp());
-            let (p, d) = match rng.below(4) {
+            let (p, d) = match rng.below(6) {
                 0 => (near(rng), bad_ts(rng)),
                 1 => (bad_ts(rng), near(rng)),
                 2 => (near(rng), near(rng)),
-                _ => (now + 1.0, now),
+                3 => (now + 1.0, now),
+                // legal decode-time successor whose composition offset does not fit 32 bits
+                4 => (now + 30000.0, now + 0.05),
+                _ => ((now - 25000.0).max(0.0), now + 25000.0 + 0.05),
             };
             Op::VideoDts { pts: F(p), dts: F(d), data: Hex(f.data), key: true, cc: true }
         }
@@ -889,7 +904,7 @@ pub fn gen_frag(rng: &mut Rng, k: &FragKnobs) -> FragCase {
             stamp = stamp.wrapping_add(0x9e3779b97f4a7c15);
             let size = match rng.below(12) {
                 0 => 0,
-                1 if k.big => rng.range(60000, 70000) as usize,
+                1 if k.big && rng.chance(1, 8) => rng.range(60000, 70000) as usize,
                 _ => rng.range(1, 60) as usize,
             };
             let mut data = stamp.to_be_bytes().to_vec();
